@@ -1,6 +1,209 @@
 import Driver.Util
-open Lean
+import DoitModel.Model.Status
+open Lean DoitModel.Status
 namespace Driver.Status
-/-- handler for requests with `"model": "status"` (stub: filled in when the model exists) -/
-def handle (_ : Json) : Json := Driver.err "model not implemented"
+/-! requests `{"model":"status","mode":"model"|"monitor","fixed":bool,"ntasks":n,"npaths":n,"ops":[op…]}`
+
+ops (both modes): `["edit",p,size,cid] ["touch",p] ["delete",p] ["editKeep",p,size,cid]
+  ["redefine",t,{"deps":[p…],"targets":[p…],"uptodate":[item…]}]   item: ["const",b] ["none"] ["runOnce"] ["cfg",d]
+  ["res",t] ["shell",b] ["custom",b|null]      ["checker","md5"|"ts"] ["forget",t] ["ignore",t] ["unmet",t]`
+model mode only: `["run",t,ok,always,[[p,size,cid]…],res|null] ["resetDep",t] ["peek",t] ["info",t]`
+  (`peek` = a `get_status(get_log=False)` only command such as `list -s`, `info` = `get_status(get_log=True)`; both
+  model the DB effect of a backend whose `remove` is write-through, i.e. dbm)
+monitor mode only (what the implementation was seen to do): `["skip",t] ["exec",t,ok,always,writes,res|null]
+  ["reset",t,"processed"|"skip"|"failed"] ["ignskip",t]`
+
+answer: `{"steps":[{…}]}`; model mode per op: `pre` (status and spec of every task before the op), `obs`, `ambiguous`,
+`db` (logical dump after the op), `crashed`; monitor mode per op: `c03` / `c04` (`null` when the event carries no
+obligation) and `spec` (of every task, before the event). -/
+
+def parseUtd (j : Json) : Utd :=
+  match asArr j with
+  | [tag] => if asStr tag = "runOnce" then .runOnce else .noneItem
+  | [tag, v] =>
+    match asStr tag with
+    | "const" => .const ((v.getBool?).toOption.getD false)
+    | "cfg" => .configChanged (asNat v)
+    | "res" => .resultDep (asNat v)
+    | "shell" => .shell ((v.getBool?).toOption.getD false)
+    | "custom" => .custom ((v.getBool?).toOption)
+    | _ => .noneItem
+  | _ => .noneItem
+
+def parseDef (j : Json) : TaskDef := ⟨jnats j "deps", jnats j "targets", (jarr j "uptodate").map parseUtd⟩
+
+def parseWrites (j : Json) : List (Path × Nat × Nat) :=
+  (asArr j).map fun w => match asArr w with
+    | [p, s, c] => (asNat p, asNat s, asNat c)
+    | _ => (0, 0, 0)
+
+def optNat (j : Json) : Option Nat := (j.getNat?).toOption
+def asBool (j : Json) : Bool := (j.getBool?).toOption.getD false
+
+inductive Ev
+  | op (o : Op)
+  | skip (t : Nat)
+  | exec (t : Nat) (ok always : Bool) (writes : List (Nat × Nat × Nat)) (res : Option Nat)
+  | reset (t : Nat) (outcome : String)
+  | ignskip (t : Nat)
+
+def parseEv (j : Json) : Option Ev :=
+  match asArr j with
+  | [tag] => if asStr tag = "nop" then some (.ignskip 0) else none
+  | [tag, a] =>
+    match asStr tag with
+    | "touch" => some (.op (.touch (asNat a)))
+    | "delete" => some (.op (.delete (asNat a)))
+    | "checker" => some (.op (.switchChecker (if asStr a = "ts" then .ts else .md5)))
+    | "forget" => some (.op (.forget (asNat a)))
+    | "ignore" => some (.op (.ignore (asNat a)))
+    | "unmet" => some (.op (.unmet (asNat a)))
+    | "resetDep" => some (.op (.resetDep (asNat a)))
+    | "peek" => some (.op (.peek (asNat a)))
+    | "info" => some (.op (.info (asNat a)))
+    | "skip" => some (.skip (asNat a))
+    | "ignskip" => some (.ignskip (asNat a))
+    | _ => none
+  | [tag, a, b] =>
+    match asStr tag with
+    | "redefine" => some (.op (.redefine (asNat a) (parseDef b)))
+    | "reset" => some (.reset (asNat a) (asStr b))
+    | _ => none
+  | [tag, p, s, c] =>
+    match asStr tag with
+    | "edit" => some (.op (.edit (asNat p) (asNat s) (asNat c)))
+    | "editKeep" => some (.op (.editKeep (asNat p) (asNat s) (asNat c)))
+    | _ => none
+  | [tag, t, ok, always, writes, res] =>
+    match asStr tag with
+    | "run" => some (.op (.run (asNat t) (asBool ok) (asBool always) (parseWrites writes) (optNat res)))
+    | "exec" => some (.exec (asNat t) (asBool ok) (asBool always) (parseWrites writes) (optNat res))
+    | _ => none
+  | _ => none
+
+def statusStr : Status → String
+  | .upToDate => "up-to-date"
+  | .run => "run"
+  | .error => "error"
+  | .crash => "crash"
+
+def ckStr : Checker → String
+  | .md5 => "md5"
+  | .ts => "ts"
+
+def optJ (o : Option Nat) : Json := match o with | none => Json.null | some n => toJson n
+
+def fstateJ : FState → Json
+  | .md5 m s c => mkArr [Json.str "md5", toJson m, toJson s, toJson c]
+  | .ts m => mkArr [Json.str "ts", toJson m]
+
+def sortNats (l : List Nat) : List Nat := (l.toArray.qsort (· < ·)).toList
+
+def valuesJ (v : Values) : Json :=
+  Json.mkObj [("runOnce", Json.bool v.runOnce), ("cfg", optJ v.cfg),
+    ("res", mkArr (v.res.map fun (t, r) => mkArr [toJson t, optJ r]))]
+
+def rcdJ (npaths : Nat) (r : Rcd) : Json :=
+  Json.mkObj [
+    ("values", match r.values with | none => Json.null | some v => valuesJ v),
+    ("result", optJ r.result),
+    ("checker", match r.checker with | none => Json.null | some c => Json.str (ckStr c)),
+    ("deps", match r.deps with | none => Json.null | some d => ofNats (sortNats d.eraseDups)),
+    ("fstate", mkArr ((List.range npaths).filterMap fun p =>
+        (r.fstate p).map fun st => mkArr [toJson p, fstateJ st])),
+    ("ign", Json.bool r.ign)]
+
+/-- a missing dependency and a wrong-shape state are both present: the code's set order decides -/
+def ambiguousAt (s : St) (t : Nat) : Bool :=
+  let d := (s.defs t).deps
+  d.any (depMissing s.fs) &&
+    (d.any (depIs .crash s.checker (s.rcd t) s.fs) || d.any (saveCrashAt s.checker (s.rcd t) s.fs))
+
+def runObs (fixed : Bool) (s : St) (t : Nat) (ok always : Bool) (writes : List (Nat × Nat × Nat))
+    (s' : St) : String :=
+  if (s.rcd t).ign then "ignored"
+  else match s.status fixed t with
+    | .crash => "crash"
+    | .error => "error"
+    | .upToDate =>
+      if always then
+        (if s'.crashed then "crash" else if !ok then "fail" else if (s'.shadow t).isSome then "ok" else "save-missing")
+      else "up-to-date"
+    | .run =>
+      if s'.crashed then "crash" else if !ok then "fail"
+      else if (saveSuccess s.checker (s.defs t).deps ((applyWrites (peek s t) writes).rcd t)
+                (applyWrites (peek s t) writes).fs Values.empty none matches .missing) then "save-missing" else "ok"
+
+def resetObs (fixed : Bool) (s : St) (t : Nat) (s' : St) : String :=
+  if (s.defs t).deps.any (depMissing s.fs) then "failed"
+  else match s.status fixed t with
+    | .crash => "crash"
+    | .error => "failed"
+    | .upToDate => "skip"
+    | .run => if s'.crashed then "crash" else "processed"
+
+def preJ (fixed : Bool) (ntasks : Nat) (s : St) : Json :=
+  mkArr ((List.range ntasks).map fun t =>
+    Json.mkObj [("status", Json.str (statusStr (s.status fixed t))), ("statusLog", Json.str (statusStr (s.statusLog t))),
+                ("spec", Json.bool (s.spec t)),
+                ("ign", Json.bool (s.rcd t).ign)])
+
+def modelStep (fixed : Bool) (ntasks npaths : Nat) (s : St) (o : Op) : St × Json :=
+  let s' := step fixed s o
+  let obs : String :=
+    if s.crashed then "dead" else
+    match o with
+    | .run t ok always writes _ => runObs fixed s t ok always writes s'
+    | .resetDep t => resetObs fixed s t s'
+    | .peek t => statusStr (s.status fixed t)
+    | .info t => statusStr (s.statusLog t)
+    | _ => "-"
+  let amb : Bool := match o with
+    | .run t _ _ _ _ => ambiguousAt s t
+    | .resetDep t => ambiguousAt s t
+    | .peek t => ambiguousAt s t
+    | .info t => ambiguousAt s t
+    | _ => false
+  (s', Json.mkObj [("pre", preJ fixed ntasks s), ("obs", Json.str obs), ("ambiguous", Json.bool amb),
+    ("crashed", Json.bool s'.crashed), ("clock", toJson s'.clock),
+    ("db", mkArr ((List.range ntasks).map fun t => rcdJ npaths (s'.rcd t)))])
+
+def specsJ (ntasks : Nat) (s : St) : Json := mkArr ((List.range ntasks).map fun t => Json.bool (s.spec t))
+
+def monStep (ntasks : Nat) (s : St) (e : Ev) : St × Json :=
+  let mk (c03 c04 : Json) := Json.mkObj [("c03", c03), ("c04", c04), ("spec", specsJ ntasks s)]
+  match e with
+  | .op o => (step true s o, mk Json.null Json.null)
+  | .skip t => (s, mk (Json.bool (s.spec t)) Json.null)
+  | .exec t ok always writes res => (monExec s t ok writes res, mk Json.null (Json.bool (always || !s.spec t)))
+  | .reset t outcome =>
+    if outcome = "processed" then (monReset s t, mk Json.null (Json.bool (!s.spec t)))
+    else if outcome = "skip" then (s, mk (Json.bool (s.spec t)) Json.null)
+    else (s, mk Json.null Json.null)
+  | .ignskip _ => (s, mk Json.null Json.null)
+
+def handle (j : Json) : Json :=
+  match (jarr j "ops").mapM parseEv with
+  | none => Driver.err "bad op"
+  | some evs =>
+    let ntasks := jnat j "ntasks"
+    let npaths := jnat j "npaths"
+    let fixed := if jhas j "fixed" then jbool j "fixed" else true
+    if jstr j "mode" = "monitor" then
+      let (_, outs) := evs.foldl (fun (acc : St × List Json) e =>
+        let (s', o) := monStep ntasks acc.1 e
+        (s', o :: acc.2)) (St.init, [])
+      Json.mkObj [("steps", mkArr outs.reverse)]
+    else
+      let (_, outs) := evs.foldl (fun (acc : St × List Json) e =>
+        match e with
+        | .op o =>
+          let (s', out) := modelStep fixed ntasks npaths acc.1 o
+          (s', out :: acc.2)
+        | .ignskip _ =>
+          let (s', out) := modelStep fixed ntasks npaths acc.1 (.switchChecker acc.1.checker)
+          (s', out :: acc.2)
+        | _ => (acc.1, Driver.err "monitor event in model mode" :: acc.2)) (St.init, [])
+      Json.mkObj [("steps", mkArr outs.reverse)]
+
 end Driver.Status
